@@ -4,6 +4,7 @@ package main
 // panics are host panics of type *guestPanic.
 
 import (
+	"time"
 	"fmt"
 	"regexp"
 	"go/constant"
@@ -636,6 +637,10 @@ func (it *Interp) runBlocks(fr *frame) Value {
 		var next *ssa.BasicBlock
 		for idx, instr := range blk.Instrs {
 			it.steps++
+			if it.steps&0xfff == 0 && !it.ex.Deadline.IsZero() && time.Now().After(it.ex.Deadline) {
+				it.ex.Truncated = "time budget reached"
+				panic(abortRun{"deadline"})
+			}
 			if it.steps > it.stepLimit {
 				it.ex.UnwindFails++
 				it.ex.Truncated = "step budget exhausted at " + it.site(instr)
